@@ -144,7 +144,7 @@ CLAIMS["C06"] = proof(
     "was created is arbitrary; spurious polls, cancellation) for EVERY schedule a state with the bit clear, nothing in flight and every woken future re-polled has no waiting read(); C06_sched_readers_prefix_refuted: the machine without the F2b repair loses a "
     "wake-up on a schedule that needs a thread interleaving. Clause (c) at schedule level is the inner Mutex = C05_sched (restated as C06_sched_inner_mutex). The two sides run TOGETHER on one WRITER_BIT in coq/Sched/RwComp.v (C06_sched_composed): every composed action is translated into the actions of both machines the code's atomic step consists of, each component "
     "of a composed run is a run of its machine, the two copies of the bit agree and equal 'some future is past the inner mutex'; hence for every composed schedule: no write()/upgrade() between its fetch_or / fetch_sub and the end of its guard + reader side at rest "
-    "=> no read() waits, and no reader left + writer side at rest => no write()/upgrade() waits. The inner mutex is still abstract in that product (its own theorem is C05_sched); blocking forms and further interplay are searched by the loom scenarios "
+    "=> no read() waits, and no reader left + writer side at rest => no write()/upgrade() waits. ALL THREE machines are composed in coq/Sched/RwComp3.v (reader side x writer side x inner mutex, with counters for read guards, upgradable guards, lock futures mid-acquisition and owed unlocks; 25 kinds of composed actions incl. conversions, downgrades, cancellation and the try_ family): each component of a composed run is a run of its machine, the coherence invariant (bits agree = somebody past the mutex; reader count = read + upgradable guards; mutex guards = upgradable + past-the-mutex + owed + mid-acquisition) holds for every composed schedule, and the four clauses become statements about what is alive: C06_sched_all_idle (a: nothing alive and all sides at rest => nothing waits on any of the three events), C06_sched_all_readers (b), C06_sched_all_mutex (c), C06_sched_all_writer (d). That the translation of composed actions is what the code does is by inspection; blocking forms and further interplay are searched by the loom scenarios "
     "rw_downgrade_race, rw_reader_chain, rw_writer_vs_last_reader, rw_cancel_vs_last_reader, blocking_forms. "
     "Clause (d) PROVED at schedule level as well: C06_sched_writer — coq/Sched/RwWriteEvSched.v (reader count, WRITER_BIT and no_readers at atomic-action granularity; write() past the inner mutex and upgrade() run the same loop; a reader leaving is cut between its "
     "fetch_sub and its notify(1); cancellation = write_unlock then the listener; the inner mutex abstract: at most one future past it): for EVERY schedule, no reader left + nothing in flight + every woken future re-polled => no write()/upgrade() waits; "
